@@ -98,8 +98,9 @@ def execute(ctx, case: dict) -> None:
     platform = case["platform"]
     if case["k"] == "pair":
         MODE["ambient"] = False
-        top = sc.build_ace(case["top"], platform)
-        bottom = sc.build_ace(case["bottom"], platform)
+        kw = case.get("kwargs", {})
+        top = sc.build_ace(case["top"], platform, **kw)
+        bottom = sc.build_ace(case["bottom"], platform, **kw)
         answers = {}
         for skip in sc.SKIP_SETS:
             try:
@@ -151,7 +152,7 @@ def execute(ctx, case: dict) -> None:
                 ctx.violation(case, "shadow_of raised after an in-place member change", f"{type(ex).__name__}: {ex}")
     else:  # ambient: ACL-level shading drives shadow_of internally
         MODE["ambient"] = True
-        acl = Acl(case["text"], platform=platform, max_ncwb=20)
+        acl = Acl(case["text"], platform=platform, max_ncwb=20, **case.get("kwargs", {}))
         for idx, members in case.get("members", {}).items():
             item = acl.items[int(idx)]
             if members.get("src"):
@@ -174,6 +175,7 @@ def gen_acl_case(rng, platform, groups=True, n=None):
     lines = []
     members = {}
     descs = []
+    table = {}
     while len(lines) < n:
         if descs and rng.random() < 0.5:
             pair = sc.gen_related_pair(rng, platform, groups=groups, small=sc.SMALL)
@@ -183,6 +185,8 @@ def gen_acl_case(rng, platform, groups=True, n=None):
             desc = sc.gen_related_pair(rng, platform, groups=groups, small=sc.SMALL)["top"]
         if descs and rng.random() < 0.15:
             desc = dict(rng.choice(descs))
+        desc = dict(desc)
+        sc.unify_groups([desc], table)
         descs.append(desc)
         idx = len(lines)
         lines.append(sc.compose(desc, platform))
@@ -225,6 +229,8 @@ def run(ctx, exact: bool = False, groups: bool = True) -> None:
         if rng.random() < 0.8:
             pair = sc.gen_related_pair(rng, platform, groups=groups, small=sc.SMALL if rng.random() < 0.3 else None)
             case = {"k": "pair", "platform": platform, **pair}
+            if rng.random() < 0.35:
+                case["kwargs"] = {"port_nr": rng.random() < 0.5, "protocol_nr": rng.random() < 0.7}
             grouped = [(w, sd) for w in ("top", "bottom") for sd in ("src", "dst") if case[w].get(sd + "_items")]
             if grouped and rng.random() < 0.6:
                 from vcheck.checks.C13 import rand_cube, spell  # pylint: disable=import-outside-toplevel
@@ -247,6 +253,8 @@ def run(ctx, exact: bool = False, groups: bool = True) -> None:
                        sample=case if ans and done % 40 == 0 else None)
         else:
             case = gen_acl_case(rng, platform, groups=groups)
+            if rng.random() < 0.35:
+                case["kwargs"] = {"port_nr": rng.random() < 0.5, "protocol_nr": rng.random() < 0.7}
             execute(ctx, case)
             ctx.judged(sig=("acl", platform, case["text"].count("\n"), bool(case["members"]), repr(case["skip"])),
                        nontrivial=True, n=max(1, STATS.get("shadow_of_calls_judged", 0) - before))
